@@ -414,4 +414,12 @@ theorem C11_model_flags (ops : WOps W) (flop : List Card) (ranges : List (List (
   rw [h6, hh]
   rfl
 
+/-- `k` winners each taking `1/k` of the pot take exactly one pot -/
+theorem C11_pot_shares (k : Nat) (hk : 1 ≤ k) : (k : Rat) * (1 / (k : Rat)) = 1 := by
+  have : (k : Rat) ≠ 0 := by
+    intro h
+    have : k = 0 := by exact_mod_cast h
+    omega
+  rw [Rat.div_def, Rat.one_mul, Rat.mul_inv_cancel _ this]
+
 end EspadaVerif.C11
